@@ -8,6 +8,7 @@ package main
 // queue (which only happens when the implementation lost or invented an item) the call is reported as "never returned".
 
 import (
+	"context"
 	"fmt"
 	"time"
 
@@ -85,6 +86,8 @@ func (o obs) String() string {
 		return "PANIC"
 	case otherErr:
 		return "unexpected error"
+	case otherWait:
+		return "true, but WaitClose/WaitClear did not return nil"
 	}
 	return "foreign value"
 }
@@ -95,6 +98,7 @@ const (
 	otherPanic   = 3
 	otherErr     = 4
 	otherValue   = 5
+	otherWait    = 6 // IsClosed / IsCleared said true but WaitClose / WaitClear did not return nil
 )
 
 func coqZ(v int64) string {
@@ -224,6 +228,8 @@ type op struct {
 type queue interface {
 	apply(o op) (r obs, hung bool)
 	applyRaw(o op) (r obs, hung bool) // the call itself, no shadow, no watchdog: for the concurrent rounds (race.go)
+	canHold(held, rel op) bool        // may `held` (a call that blocks now) be started and then released by `rel`, deterministically?
+	noteHeld(held op, r obs)          // shadow update for the result of a held call
 	release()                         // wake whatever a hung call left behind
 	coqOp(o op) string
 	goOp(o op) string
@@ -273,6 +279,7 @@ type pipeQ struct {
 	pop, popAnyway      func() (interface{}, error)
 	closeFn             func()
 	isClosed            func() bool
+	waitClose           func(context.Context) error
 	eClosed, eFull, eSy error
 	sh                  *shadow
 }
@@ -299,6 +306,7 @@ func newPipe(kind string, n int, noOpt bool) *pipeQ {
 		x := mux.NewQ(n)
 		p.add, p.prior, p.addAnyway, p.pop, p.popAnyway, p.closeFn = x.AddReq, x.AddPriorReq, x.AddReqAnyway, x.Pop, x.PopAnyway, x.Close
 		p.isClosed = x.IsClosed
+		p.waitClose = x.WaitClose
 		p.eClosed, p.eFull, p.eSy = mux.ErrClosed, mux.ErrQFull, mux.ErrSync
 	default:
 		panic("kind " + kind)
@@ -362,6 +370,14 @@ func (p *pipeQ) apply(o op) (r obs, hung bool) {
 		p.sh.closed = true
 	case "i":
 		r = direct(func() obs { return flag(p.isClosed()) })
+		if r.tag == "flag" && r.v != 0 && p.waitClose != nil { // closed also means: the stop channel is closed, WaitClose returns at once
+			r, hung = guarded(func() obs {
+				if p.waitClose(context.Background()) != nil {
+					return obs{"other", otherWait}
+				}
+				return flag(true)
+			})
+		}
 	default:
 		panic("pipe op " + o.code)
 	}
@@ -508,8 +524,24 @@ func (m *mqQ) apply(o op) (r obs, hung bool) {
 		r = direct(func() obs { return flag(m.x.TryClear()) })
 	case "ic":
 		r = direct(func() obs { return flag(m.x.IsClosed()) })
+		if r.tag == "flag" && r.v != 0 {
+			r, hung = guarded(func() obs {
+				if m.x.WaitClose(context.Background()) != nil {
+					return obs{"other", otherWait}
+				}
+				return flag(true)
+			})
+		}
 	case "il":
 		r = direct(func() obs { return flag(m.x.IsCleared()) })
+		if r.tag == "flag" && r.v != 0 {
+			r, hung = guarded(func() obs {
+				if m.x.WaitClear(context.Background()) != nil {
+					return obs{"other", otherWait}
+				}
+				return flag(true)
+			})
+		}
 	default:
 		panic("mq op " + o.code)
 	}
@@ -691,6 +723,10 @@ func (p *pipeQ) applyRaw(o op) (obs, bool) {
 		return direct(func() obs { return p.errObs(p.prior(valOf(o.x))) }), false
 	case "y":
 		return direct(func() obs { return p.popObs(p.popAnyway()) }), false
+	case "o":
+		return direct(func() obs { return p.popObs(p.pop()) }), false
+	case "w":
+		return direct(func() obs { return p.errObs(p.addAnyway(valOf(o.x), time.Millisecond)) }), false
 	case "c":
 		return direct(func() obs { p.closeFn(); return obs{"done", 0} }), false
 	}
@@ -708,6 +744,12 @@ func (m *mqQ) applyRaw(o op) (obs, bool) {
 		return direct(func() obs { return m.errObs(m.x.AddPriorReq(valOf(o.x))) }), false
 	case "y":
 		return direct(func() obs { return m.popObs(m.x.PopAnyway()) }), false
+	case "o":
+		return direct(func() obs { return m.popObs(m.x.Pop()) }), false
+	case "wc":
+		return direct(func() obs { return m.errObs(m.x.AddCtrlAnyway(valOf(o.x), time.Millisecond)) }), false
+	case "wr":
+		return direct(func() obs { return m.errObs(m.x.AddReqAnyway(valOf(o.x), time.Millisecond)) }), false
 	case "c":
 		return direct(func() obs { m.x.Close(); return obs{"done", 0} }), false
 	}
@@ -730,9 +772,91 @@ func (s *syncQ) applyRaw(o op) (obs, bool) {
 			}
 			return obs{"other", otherValue}
 		}), false
+	case "o":
+		return direct(func() obs {
+			v := s.x.Pop()
+			if v == nil {
+				return obs{"closed", 0}
+			}
+			return itemOf(v)
+		}), false
 	case "c":
 		return direct(func() obs { s.x.Close(); return obs{"done", 0} }), false
 	}
 	panic("sync raw op " + o.code)
 }
 func (p *priQ) applyRaw(o op) (obs, bool) { return p.apply(o) }
+
+// ---- held calls: a call that blocks NOW is started in a goroutine and released by the next call of the history ----
+// (a Pop / PopAnyway on an empty open queue released by an add or a Close; an add-anyway on a full open queue released by
+// a pop that makes room at that level, or by a Close).  With one held call and one releasing call the results are the same
+// under every schedule: the held call takes effect after the releasing one.
+
+func isAddCode(kind, code string) bool {
+	switch kind {
+	case "mq":
+		return code == "ac" || code == "pc" || code == "ar" || code == "pr"
+	case "sync":
+		return code == "u"
+	}
+	return code == "a" || code == "p"
+}
+
+func (p *pipeQ) canHold(held, rel op) bool {
+	switch held.code {
+	case "o", "y":
+		return p.sh.popWouldBlock() && (isAddCode(p.kind, rel.code) || rel.code == "c")
+	case "w":
+		return p.sh.addAnywayWouldBlock(0) && (rel.code == "c" || ((rel.code == "o" || rel.code == "y") && p.sh.n[0]-1 < p.sh.cap[0]))
+	}
+	return false
+}
+func (p *pipeQ) noteHeld(held op, r obs) {
+	if held.code == "w" {
+		if r.tag == "done" {
+			p.sh.accepted(held.x, 0)
+		}
+		return
+	}
+	p.sh.handedOut(r)
+}
+func (m *mqQ) canHold(held, rel op) bool {
+	lv := 0
+	switch held.code {
+	case "o", "y":
+		return m.sh.popWouldBlock() && (isAddCode("mq", rel.code) || rel.code == "c")
+	case "wr":
+		lv = 1
+		fallthrough
+	case "wc":
+		if !m.sh.addAnywayWouldBlock(lv) {
+			return false
+		}
+		if rel.code == "c" {
+			return true
+		}
+		// a pop makes room at this level only if it takes from this level: control messages come out first
+		return (rel.code == "o" || rel.code == "y") && (lv == 0 || m.sh.n[0] == 0) && m.sh.n[lv]-1 < m.sh.cap[lv]
+	}
+	return false
+}
+func (m *mqQ) noteHeld(held op, r obs) {
+	switch held.code {
+	case "wc":
+		if r.tag == "done" {
+			m.sh.accepted(held.x, 0)
+		}
+	case "wr":
+		if r.tag == "done" {
+			m.sh.accepted(held.x, 1)
+		}
+	default:
+		m.sh.handedOut(r)
+	}
+}
+func (s *syncQ) canHold(held, rel op) bool {
+	return held.code == "o" && s.sh.popWouldBlock() && (rel.code == "u" || rel.code == "c")
+}
+func (s *syncQ) noteHeld(held op, r obs)  { s.sh.handedOut(r) }
+func (p *priQ) canHold(held, rel op) bool { return false }
+func (p *priQ) noteHeld(held op, r obs)   {}
